@@ -85,9 +85,9 @@ def cli_case(case, env):
 def check(tier, seed, t0):
     common.build_harness()
     common.build_rg()
-    total = 300 if tier == "quick" else 10000
+    total = 1500 if tier == "quick" else 40000
     parts = [("lib", common.run_rgmon("c03", tier, seed)),
-             ("cli", common.run_cli_cases("c03", cli_case, seed, "c03cli", total, 25 if tier == "quick" else 100))]
+             ("cli", common.run_cli_cases("c03", cli_case, seed, "c03cli", total, 94 if tier == "quick" else 200))]
     if tier == "thorough":
         import sanitize
         parts.append(("miri", sanitize.miri_leg("C03", 8)(tier, seed)))
